@@ -9,7 +9,7 @@ RULE = ("every operator result on general-position operands of all kinds and on 
         "chain (end of one segment IS the start of the next, also by identity), no zero-length segment, no self-crossing, "
         "Simple = one boundary, Connected = >= 2 boundaries bounding one region with holes, Disjoint = >= 2 pairwise "
         "disjoint components, documented kind tables; the singleton laws S|~S, S&~S, S-S, S^S, S^~S on every generated "
-        "shape of every kind (identity with the singletons); float operands with a crossing within an ulp of an existing "
+        "shape of every kind (identity with the singletons), also on one object after its complement was taken, the shape moved and the complement scaled in place; float operands with a crossing within an ulp of an existing "
         "vertex (well-formedness incl. no segment shorter than 1e-9, region away from the boundaries); non-trivial = operands cross or are composite; distinct = SHA-1")
 PROOF_STATUS = ("Props/C06.v: results of all five operators are shape_wf with closed boundaries (all inputs), complement kind "
                 "table, regrouping keeps the curves, singleton rows; no zero-length piece after any split, in any re-split operand, "
@@ -139,6 +139,27 @@ def check(ctx, case):
             r = I.outcome(lambda: f(S))
             if r[0] != "ok" or r[1] is not want:
                 fails.append(Fail(kind="O", what="singleton law %s fails" % name, impl=(r[0], type(r[1]).__name__ if r[0] == "ok" else r[1])))
+        # the laws again on ONE object with a history: complement taken, the shape moved in place, the earlier
+        # complement transformed in place -- S op ~S must still be the singletons
+        S = I.mk_shape(s, num)
+        hist_r = I.outcome(lambda: (~S, S - S))
+        if hist_r[0] == "ok":
+            c0 = hist_r[1][0]
+            I.outcome(lambda: S.move(F(7, 2), F(-3)))
+            for name, f, want in laws:
+                r = I.outcome(lambda: f(S))
+                if r[0] != "ok" or r[1] is not want:
+                    fails.append(Fail(kind="O", what="singleton law %s fails after the complement was taken and the shape moved in place" % name,
+                                      impl=(r[0], type(r[1]).__name__ if r[0] == "ok" else r[1])))
+                    break
+            if hasattr(c0, "scale"):
+                I.outcome(lambda: c0.scale(2, 3))
+                for name, f, want in laws:
+                    r = I.outcome(lambda: f(S))
+                    if r[0] != "ok" or r[1] is not want:
+                        fails.append(Fail(kind="O", what="singleton law %s fails after an earlier complement of the shape was scaled in place" % name,
+                                          impl=(r[0], type(r[1]).__name__ if r[0] == "ok" else r[1])))
+                        break
         S = I.mk_shape(s, num)
         kinds = {"S": "SimpleShape", "C": "DisjointShape"}
         r = I.outcome(lambda: type(~S).__name__)
